@@ -37,9 +37,12 @@ def impl_bridge(g, ignore_aam):
 
 def gen_bridge_graph(rng, big=False):
     n = rng.randint(1, 24 if big else 9)
-    style = rng.choice(["contiguous", "offset", "sparse", "shuffled", "negative"])
+    style = rng.choice(["contiguous", "offset", "sparse", "shuffled", "negative", "permuted"])
     if style == "contiguous":
         ids = list(range(n))
+    elif style == "permuted":
+        # exactly the ids 0..n-1, inserted in a random order (a node id is then NOT its RDKit atom index)
+        ids = rng.sample(range(n), n)
     elif style == "offset":
         o = rng.randint(1, 9)
         ids = list(range(o, o + n))
@@ -96,9 +99,14 @@ def bridge_case(g, ignore_aam, name, tags):
     out = call_impl(impl_bridge, g, ignore_aam)
     aams = [d.get("aam") for _, d in g.nodes(data=True)]
     orders = [b for _, _, b in g.edges(data="bond")]
-    in_domain = all(a is None or a >= 1 for a in aams) and all(o in (1, 1.5, 2, 3, 4) for o in orders)
+    # self-loops are outside the domain: RDKit's AddBond(i, i) raises, the RWMol model does not reproduce that
+    # (hypothesis `noSelfLoops` of C19.bridge_lossless, evaluated by the driver: extra `noloops=`)
+    loops = nx.number_of_selfloops(g)
+    in_domain = all(a is None or a >= 1 for a in aams) and all(o in (1, 1.5, 2, 3, 4) for o in orders) and loops == 0
     labelled = any(d.get("is_labeled") for _, d in g.nodes(data=True))
     t = list(tags) + ["ignore_aam" if ignore_aam else "with_aam"]
+    if loops:
+        t.append("self-loop(out-of-domain)")
     if labelled:
         t.append("labelled-node")
     for o in sorted(set(orders)):
@@ -107,7 +115,7 @@ def bridge_case(g, ignore_aam, name, tags):
         t.append("has-map-1")
     key = hashlib.blake2b(sx(req).encode(), digest_size=8).hexdigest() if g.number_of_edges() else None
     return Case(req, enc_graph(out) if isinstance(out, nx.Graph) else out, in_domain=in_domain,
-                meta={"name": name}, nontrivial_key=key, tags=t)
+                meta={"name": name, "self_loops": loops}, nontrivial_key=key, tags=t)
 
 
 def bridge_corpus():
@@ -130,6 +138,17 @@ def bridge_corpus():
     except Exception:
         pass
     out.append(("empty", nx.Graph()))
+    # self-loops (out of domain: graph_to_mol raises inside RDKit, the model does not)
+    g = nx.Graph()
+    g.add_node(0, symbol="C")
+    g.add_edge(0, 0, bond=1)
+    out.append(("self-loop:single-atom", g))
+    g = nx.Graph()
+    g.add_node(4, symbol="C", aam=1)
+    g.add_node(2, symbol="O", aam=2)
+    g.add_edge(4, 2, bond=2)
+    g.add_edge(2, 2, bond=1)
+    out.append(("self-loop:C=O(O-O loop)", g))
     return out
 
 
@@ -139,6 +158,7 @@ def bridge_corpus():
 VAL = {"C": 4, "N": 3, "O": 2, "S": 2, "F": 1, "Cl": 1, "Br": 1, "P": 3, "B": 3}
 RINGS = ["c1ccccc1", "c1ccncc1", "C1CCCCC1", "C1CCOC1", "c1ccoc1", "c1ccsc1", "C1CC1", "c1ccc2ccccc2c1", "c1cncnc1"]
 BOND_SYM = {1: "", 2: "=", 3: "#"}
+SMILES_REREAD_FLOOR = 0.5
 
 
 def gen_smiles(rng, depth=0, incoming=0, budget=None):
@@ -182,6 +202,7 @@ def smiles_leg(r, n_cases):
     RDLogger.DisableLog("rdApp.*")
     rng = r.rng
     fails = []
+    n_written = n_reread = 0
     for k in range(n_cases):
         smi = gen_smiles(rng)
         mol = Chem.MolFromSmiles(smi)
@@ -202,12 +223,14 @@ def smiles_leg(r, n_cases):
         except Exception as e:
             fails.append({"smiles": smi, "source": source, "what": "graph_to_smiles raised %r" % (e,)})
             continue
+        n_written += 1
         try:
             back = smiles_to_graph(written)
         except ValueError:
             # RDKit cannot re-read what it wrote (e.g. aromatic [nH] lost): the statement is conditional
             r.count("smiles:rdkit-cannot-reread")
             continue
+        n_reread += 1
         ok = iso(g, back)
         r.count("smiles:roundtrip-isomorphic" if ok else "smiles:roundtrip-NOT-isomorphic")
         if g.number_of_nodes() > 2:
@@ -220,6 +243,15 @@ def smiles_leg(r, n_cases):
         p = r.write_replay("failing-input", "smiles_roundtrip", dict(f, n_failures=len(fails),
                            spec_clause="graph_to_smiles -> smiles_to_graph must be isomorphic (symbols, bond orders)"))
         r.violation_lines.append("VIOLATION property=C19 replay=%s" % p)
+    # floor on the re-read rate: the clause is conditional on RDKit re-reading the written SMILES; a leg in which
+    # (almost) nothing is re-read checks nothing and must not count as a pass (machinery failure, exit 2)
+    rate = (n_reread / n_written) if n_written else 0.0
+    r.extra_cov["smiles_leg"] = {"written": n_written, "reread_by_rdkit": n_reread, "reread_rate": round(rate, 4),
+                                 "floor": SMILES_REREAD_FLOOR}
+    if n_written == 0 or rate < SMILES_REREAD_FLOOR:
+        r.notes.setdefault("machinery_errors", []).append(
+            "ERROR property=C19 smiles leg: RDKit re-read only %d of %d written SMILES (rate %.2f < floor %.2f): the "
+            "conditional round-trip clause was not exercised" % (n_reread, n_written, rate, SMILES_REREAD_FLOOR))
     return len(fails)
 
 
@@ -267,24 +299,52 @@ def wl_graph(rng):
             return mol_to_graph(mol)
 
 
+def multi_fragment_graph(rng):
+    """a DISCONNECTED molecule with several fragments of the SAME size that differ (a generated molecule, near copies of
+    it with one symbol / bond order changed, sometimes an exact second copy and a fragment of another size), as one graph
+    on ids 0..n-1 in fragment order.  `renumber` then permutes ids and the node insertion order, so the order in which
+    equal-sized fragments are met changes: a comparison that depends on it is not invariant under renumbering."""
+    f = wl_graph(rng)
+    frags = [f, perturb(rng, f)]
+    if rng.random() < 0.5:
+        frags.append(perturb(rng, f))
+    if rng.random() < 0.3:
+        frags.append(f.copy())
+    if rng.random() < 0.4:
+        frags.append(wl_graph(rng))
+    rng.shuffle(frags)
+    g = nx.Graph()
+    for fr in frags:
+        off = g.number_of_nodes()
+        m = {n: off + i for i, n in enumerate(fr.nodes)}
+        for n, d in fr.nodes(data=True):
+            g.add_node(m[n], **d)
+        for u, v, d in fr.edges(data=True):
+            g.add_edge(m[u], m[v], **d)
+    return g
+
+
 def wl_leg(r, n_batches):
     from fgutils.utils import mol_compare
     rng = r.rng
     bad_cmp = []
     for b in range(n_batches):
-        base = [wl_graph(rng) for _ in range(4)]
+        base = [wl_graph(rng) for _ in range(2)] + [multi_fragment_graph(rng) for _ in range(2)]
         graphs = []
         for g in base:
             graphs += [g, renumber(rng, g), perturb(rng, g), renumber(rng, perturb(rng, g))]
         # implementation: mol_compare is invariant under renumbering
         for g in base:
-            h = renumber(rng, g)
-            res = mol_compare([h, g], g)
-            r.evaluations += 1
-            r.count("compare:renumbered")
-            if not (res[0] == 1 and res[1] == 1):
-                bad_cmp.append({"target": sx(enc_graph(g)), "candidate": sx(enc_graph(h)), "result": [float(x) for x in res],
-                                "what": "mol_compare differs on a renumbered copy"})
+            ncomp = nx.number_connected_components(g)
+            for _ in range(1 if ncomp == 1 else 4):     # several renumberings of a multi-fragment molecule (fragment order permuted)
+                h = renumber(rng, g)
+                res = call_impl(mol_compare, [h, g], g)
+                r.evaluations += 1
+                r.count("compare:renumbered" + (":disconnected(equal-size fragments)" if ncomp > 1 else ":connected"))
+                if isinstance(res, ImplError) or not (res[0] == 1 and res[1] == 1):
+                    bad_cmp.append({"target": sx(enc_graph(g)), "candidate": sx(enc_graph(h)),
+                                    "result": res.text if isinstance(res, ImplError) else [float(x) for x in res],
+                                    "fragments": ncomp, "what": "mol_compare differs on a renumbered copy"})
         # model vs networkx: same partition of the batch
         nxh = [nx.weisfeiler_lehman_graph_hash(g, edge_attr="bond", node_attr="symbol", iterations=3) for g in graphs]
         cases = [Case([Atom("C19"), Atom("wl"), 3, enc_graph(g)], None, compare_model=False,
@@ -321,6 +381,20 @@ def tally(r, outs):
             r.notes.setdefault("bad_wf_example", o.case.line()[:400])
         elif o.ok_reply and "wf=1" in o.extra:
             r.count("inputs-satisfying-theorem-hypotheses(wf)")
+        if o.ok_reply and o.case.req[1] == "bridge":
+            loops = o.case.meta.get("self_loops", 0)
+            flag = "noloops=0" if loops else "noloops=1"
+            if flag not in o.extra:
+                # the harness's domain oracle and the driver's decidable hypothesis disagree: machinery
+                r.notes.setdefault("machinery_errors", []).append(
+                    "ERROR property=C19 self-loop oracle (python: %d loops) and driver hypothesis noSelfLoops (%s) disagree on %s"
+                    % (loops, [x for x in o.extra if str(x).startswith("noloops")], o.case.line()[:300]))
+            if loops:
+                impl_raised = isinstance(o.case.impl, ImplError)
+                model_raised = isinstance(o.model, list) and o.model[:1] == ["raised"]
+                r.count("self-loop:impl-%s/model-%s" % ("raises" if impl_raised else "returns", "raises" if model_raised else "returns"))
+            else:
+                r.count("inputs-satisfying-noSelfLoops-hypothesis")
         if o.ok_reply and "closed=0" in o.extra:
             r.count("inputs-outside-edgesClosed-hypothesis")
         elif o.ok_reply and "closed=1" in o.extra:
@@ -339,6 +413,8 @@ def run(tier, seed):
         return 2
     rng = r.rng
     cases = []
+    from rdkit import RDLogger
+    RDLogger.DisableLog("rdApp.*")     # the self-loop cases make RDKit log a pre-condition violation each
     from c12 import corpus_files
     for name, g in bridge_corpus() + corpus_files("C19", 3):
         for ia in (False, True):
@@ -351,6 +427,10 @@ def run(tier, seed):
     for k in range(n_bridge):
         g, info = gen_bridge_graph(rng, big=(k % 6 == 0))
         ia = rng.random() < 0.2
+        if k % 67 == 13:
+            # a few graphs with a self-loop (out of domain; hypothesis noSelfLoops of bridge_lossless)
+            v = rng.choice(list(g.nodes))
+            g.add_edge(v, v, bond=rng.choice([1, 2]))
         tags = ["random", "ids=" + info["ids"], "aam=" + info["aam"]]
         if info["unsupported"]:
             tags.append("unsupported-order")
@@ -366,10 +446,12 @@ def run(tier, seed):
     r.extra_cov["escalated"] = bool(proofs_broken)
     bad_wf = r.notes.get("bad_wf", 0)
     r.extra_cov["inputs_violating_theorem_hypotheses"] = bad_wf
+    machinery = list(r.notes.get("machinery_errors", []))
     if bad_wf:
-        r.violation_lines.append("ERROR property=C19 %d bridge inputs are not well-formed simple graphs "
-                                 "(hypotheses of C19.bridge_lossless; harness defect); e.g. %s"
-                                 % (bad_wf, r.notes.get("bad_wf_example")))
+        # a defect of the harness (its generator left the theorems' domain): never a VIOLATION, never a pass -> exit 2
+        machinery.append("ERROR property=C19 %d bridge inputs are not well-formed simple graphs "
+                         "(hypotheses of C19.bridge_lossless; harness defect); e.g. %s"
+                         % (bad_wf, r.notes.get("bad_wf_example")))
     r.assumptions = [
         "RDKit RWMol contract (assumed, exercised by every bridge case): AddAtom returns the running index, GetAtoms/GetBonds iterate in insertion order, "
         "Atom(sym).GetSymbol() = sym for element symbols, GetAtomMapNum() = the number set or 0, GetMol() without sanitisation changes nothing",
@@ -377,19 +459,31 @@ def run(tier, seed):
         "networkx container semantics (add_node/add_edge/edges order) as in Model/Graph.lean; the WL model follows networkx.weisfeiler_lehman_graph_hash "
         "(undirected, node_attr+edge_attr) with the digest function abstract; blake2b collisions are not considered",
         "Python str() of bond orders: ints and 1.5 (graphs from mol_to_graph)",
+        "DOMAIN: graphs with a self-loop are outside the domain (RDKit's AddBond(i, i) raises, the RWMol model does not reproduce that refusal): "
+        "hypothesis noSelfLoops of C19.bridge_lossless, evaluated by the driver on every case (extra noloops=) and cross-checked against "
+        "networkx.number_of_selfloops; a few self-loop graphs are generated and counted (input_distribution self-loop:*), they never decide the verdict",
+        "the SMILES leg is conditional on RDKit re-reading the written SMILES; a re-read rate below 50% is a machinery failure (exit 2), "
+        "coverage.smiles_leg reports written / re-read / rate",
     ]
-    return r.finish(
+    rc = r.finish(
         level="proof",
         rule="bridge: corpus (one cell per supported order, parsed molecules with/without atom maps, labelled node) + random element graphs "
-             "(1-24 atoms, ids contiguous/offset/sparse/shuffled/negative, orders 1,1.5,2,3,4, maps none/all/partial/with 0/negative, ignore_aam, "
+             "(1-24 atoms, ids contiguous/offset/sparse/shuffled/negative/permuted 0..n-1, orders 1,1.5,2,3,4, maps none/all/partial/with 0/negative, ignore_aam, "
              "8% labelled nodes, 3% unsupported orders (out of domain)); smiles: generated neutral molecules via RDKit and via the FGUtils parser; "
-             "compare: renumbered/perturbed copies in batches of 16; non-trivial = bridge inputs with at least one bond (distinct by request), "
+             "compare: renumbered/perturbed copies in batches of 16, half of the base molecules disconnected with several equal-size different fragments "
+             "(renumberings permute the fragments); non-trivial = bridge inputs with at least one bond (distinct by request), "
              "distinct written SMILES with > 2 atoms, distinct WL batches",
         checker_cmd="cd lean && lake build FGVerif.Proofs.C19 && lake env lean FGVerif/Audit/C19.lean",
         explanation="theorems in lean/FGVerif/Proofs/C19.lean about Model/C19.lean (bridge_roundtrip, bridge_spec_holds, bridge_lossless "
-                    "(hypotheses C11.wellFormed/C11.simple evaluated by the driver on every case), refuses_labels, bond_tables_inverse and sym_table on the "
+                    "(hypotheses C11.wellFormed/C11.simple/noSelfLoops evaluated by the driver on every case), refuses_labels, bond_tables_inverse and sym_table on the "
                     "regenerated tables, specCheck_sound, wl_invariant); model tied to fgutils.rdkit by exact wire-level differential testing; semantic spec "
                     "C19.BridgeSpec applied to every implementation output; SMILES round trip and mol_compare exercised on the implementation")
+    # exit 1 iff a VIOLATION line was printed; machinery problems are exit 2 (exit 1 if both happened)
+    for ln in machinery:
+        print(ln)
+    if machinery and rc == 0:
+        rc = 2
+    return rc
 
 
 # ---------------------------------------------------------------------------
@@ -408,6 +502,8 @@ def replay(path):
         req = parse_sx(d["request_line"])
         if req[1] != "bridge":
             print("REPLAY property=C19 op=%s is not replayable on its own" % req[1])
+            if not r.build.proofs_ok:
+                print("VIOLATION property=C19 replay=%s no-failing-input-found" % path)
             return 0 if r.build.proofs_ok else 1
         ia, g = req[2] == "1", dec_graph(req[3])
         case = bridge_case(g, ia, "replay", [])
@@ -416,7 +512,14 @@ def replay(path):
         print("REPLAY property=C19 op=bridge in_domain=%s spec_impl=%s model==impl:%s" % (case.in_domain, o.spec_impl, o.corr))
         print("  input : %s" % sx(enc_graph(g)))
         print("  impl  : %s" % (o.impl_c,))
-        return 1 if (o.spec_fail or not o.corr or o.driver_error) else 0
+        # exit 1 iff a VIOLATION line is printed; a driver error is machinery (exit 2)
+        if o.driver_error:
+            print("ERROR property=C19 the driver could not answer the replayed request")
+            return 2
+        if case.in_domain and (o.spec_fail or not o.corr):
+            print("VIOLATION property=C19 replay=%s%s" % (path, "" if o.spec_fail else " no-failing-input-found"))
+            return 1
+        return 0
     if "smiles" in d:
         from fgutils.rdkit import graph_to_smiles, smiles_to_graph
         from fgutils.parse import parse
@@ -429,15 +532,28 @@ def replay(path):
             return 0
         except Exception as e:
             print("REPLAY property=C19 smiles=%s raised %r" % (d["smiles"], e))
+            print("VIOLATION property=C19 replay=%s" % path)
             return 1
         ok = iso(g, back)
         print("REPLAY property=C19 smiles=%s written=%s isomorphic=%s" % (d["smiles"], written, ok))
+        if not ok:
+            print("VIOLATION property=C19 replay=%s" % path)
         return 0 if ok else 1
     if "target" in d and "candidate" in d:
         from fgutils.utils import mol_compare
         t, c = dec_graph(parse_sx(d["target"])), dec_graph(parse_sx(d["candidate"]))
-        res = mol_compare([c, t], t)
+        res = call_impl(mol_compare, [c, t], t)
+        if isinstance(res, ImplError):
+            print("REPLAY property=C19 mol_compare raised %s" % res.text)
+            print("VIOLATION property=C19 replay=%s" % path)
+            return 1
         print("REPLAY property=C19 mol_compare(renumbered copy, target) = %s" % [float(x) for x in res])
-        return 0 if res[0] == 1 and res[1] == 1 else 1
+        if not (res[0] == 1 and res[1] == 1):
+            print("VIOLATION property=C19 replay=%s" % path)
+            return 1
+        return 0
     print("REPLAY property=C19 kind=%s has no request; proofs_ok=%s" % (d.get("kind"), r.build.proofs_ok))
-    return 0 if r.build.proofs_ok and not r.audit_bad else 1
+    if not (r.build.proofs_ok and not r.audit_bad):
+        print("VIOLATION property=C19 replay=%s no-failing-input-found" % path)
+        return 1
+    return 0
